@@ -226,7 +226,8 @@ fn cmd_run(args: &[String]) -> i32 {
 
 fn cmd_replay(args: &[String]) -> i32 {
     let path = &args[0];
-    let sandbox = arg(args, "--sandbox").map(|s| s.to_string()).unwrap_or_else(|| "/verif/.work/replay".to_string());
+    let own_sandbox = arg(args, "--sandbox").is_none();
+    let sandbox = arg(args, "--sandbox").map(|s| s.to_string()).unwrap_or_else(|| format!("/verif/.work/replay-{}", std::process::id()));
     let _ = std::fs::create_dir_all(&sandbox);
     let sandbox = std::fs::canonicalize(&sandbox).map(|p| p.to_string_lossy().to_string()).unwrap_or(sandbox);
     let text = match std::fs::read_to_string(path) {
@@ -258,6 +259,9 @@ fn cmd_replay(args: &[String]) -> i32 {
             return 2;
         }
     };
+    if own_sandbox {
+        let _ = std::fs::remove_dir_all(&sandbox);
+    }
     let eh = format!("{:016x}", rep.event_hash());
     if args.iter().any(|a| a == "--verbose") {
         for e in &rep.events {
